@@ -144,7 +144,10 @@ class PersistentVector(
         return self._inner[item]
 
     def __hash__(self):
-        return hash(self._inner)
+        # Vectors are equal to lists, seqs and queues with the same elements, so
+        # they must hash like them (``hash(pvector)`` uses a different algorithm
+        # than the ``hash(tuple(...))`` used by every other sequential type).
+        return hash(tuple(self._inner))
 
     def __iter__(self):
         yield from self._inner
